@@ -6,6 +6,7 @@ cd "$(dirname "$0")"
 export CARGO_NET_OFFLINE=true
 mkdir -p .work evidence
 python3 tools/gen_tables.py /repo >/dev/null || true
+python3 tools/gen_expr.py /repo >/dev/null || true
 ( cd coq && coq_makefile -f _CoqProject -o Makefile >/dev/null && timeout 3000 make -j16 >.build.log 2>&1 || { tail -50 .build.log; exit 1; } )
 ( cd driver && sh build.sh )
 ( cd harness && timeout 3000 cargo build --release --offline 2>&1 | tail -3 )
